@@ -167,10 +167,12 @@ func decodeStringValue(reader ByteRuneReader, flag int32) (string, error) {
 		if err != nil {
 			return "", err
 		}
-		if newLength < length {
-			buf = buf[:newLength]
-			length = newLength
+		// every chunk has its own length: later chunks may be shorter or longer
+		if newLength > cap(buf) {
+			buf = make([]rune, newLength)
 		}
+		buf = buf[:newLength]
+		length = newLength
 	}
 
 	return string(byteBuf.Bytes()), nil
